@@ -10,6 +10,7 @@ import (
 	"fmt"
 	"io"
 	"os"
+	"strings"
 	"time"
 
 	log "github.com/sirupsen/logrus"
@@ -65,6 +66,11 @@ func main() {
 				return err
 			}
 			obs, hung := runWatched(eng, in, limit)
+			if !hung && obs.IsLeaf == false && len(obs.Kids) == 2 && obs.Kids[0].IsLeaf && obs.Kids[0].Int() == -1 && !obs.Kids[1].IsLeaf {
+				// the code under test (or the harness) panicked outside anything the engine catches itself
+				fmt.Fprintf(w, "CRASH panic: %s\n", string(obs.Kids[1].ByteSlice()))
+				return nil
+			}
 			if hung {
 				// the code under test never came back (deadlock, lost wake-up): reported like a crash of this case; the
 				// goroutine is abandoned.  After three of them the shard stops: the remaining cases are not run.
@@ -105,7 +111,16 @@ func runWatched(eng engine, in sx.Tree, limit time.Duration) (sx.Tree, bool) {
 func runProtected(eng engine, in sx.Tree) (obs sx.Tree) {
 	defer func() {
 		if r := recover(); r != nil {
-			obs = sx.T(sx.L(-1))
+			msg := strings.Map(func(c rune) rune {
+				if c < 32 || c > 126 {
+					return ' '
+				}
+				return c
+			}, fmt.Sprint(r))
+			if len(msg) > 300 {
+				msg = msg[:300]
+			}
+			obs = sx.T(sx.L(-1), sx.Str(msg))
 		}
 	}()
 	return eng.run(in)
